@@ -152,6 +152,9 @@ func (s *KVTest) Update(entry sm.Entry) (sm.Result, error) {
 	}
 	generateRandomDelay()
 	dataKv := s.pbkvPool.Get().(*kv.KV)
+	// the pooled object still holds the previous command and the decoder leaves
+	// absent (empty) fields untouched
+	*dataKv = kv.KV{}
 	if err := dataKv.UnmarshalBinary(entry.Cmd); err != nil {
 		panic(err)
 	}
